@@ -505,6 +505,15 @@ func (fv *FuncVer) heapWF(key string, h, bound *Term) *Term {
 		j := BoundVar("j_q", c.W)
 		v := Select(Select(h, r), j)
 		return Forall([]*Term{r, j}, fv.wfBound(bound, v, t, 2), v)
+	case strings.HasPrefix(key, "MV:"):
+		// values stored in maps (e.g. a map of slices): the same bound
+		ks := fv.mapKeySorts[key]
+		if ks == nil || h.Sort.Elem == nil || h.Sort.Elem.Elem == nil || h.Sort.Elem.Elem != c.SortOf(t) {
+			return nil
+		}
+		k := BoundVar("k_q", ks)
+		v := Select(Select(h, r), k)
+		return Forall([]*Term{r, k}, fv.wfBound(bound, v, t, 2), v)
 	}
 	return nil
 }
